@@ -91,6 +91,7 @@ class H(explore.Harness):
         if self.mode == "cached":
             cache.async_create_or_update_map(IDS[0].upper(), 3, accessories(), None, 5)
         self.nadv, self.last_adv, self.zc_cache, self.model_resolve, self.may_find = {}, {}, {}, {}, set()
+        self.ambig = set()
         self.ctrls = {}
         if p.get("browser"):
             import aiohomekit.zeroconf as zmod
@@ -246,7 +247,14 @@ class H(explore.Harness):
                 self.nadv[(dev_id, via)] = k + 1
                 props, v = self._props(dev_id, k)
                 info = svc_info(hap, dev_id, props=props)
-                self.last_adv[(dev_id, via)] = v
+                if any(d[1] == dev_id and d[2] == via for d in self.model_resolve.values()):
+                    # a record announced through the browser is still within its resolution window: which of the two the controller hears
+                    # of LAST is the debounce's business (not fixed by the property) - nothing is demanded about the description until the
+                    # next advertisement that stands alone
+                    self.ambig.add((dev_id, via))
+                    self.last_adv.pop((dev_id, via), None)
+                else:
+                    self.last_adv[(dev_id, via)] = v
             else:
                 info = svc_info(hap, dev_id, addresses=("169.254.1.1",))
             self.ctrls[via]._async_handle_loaded_service_info(info)
@@ -287,6 +295,8 @@ class H(explore.Harness):
             self.zc_cache[name] = svc_info(hap, dev_id, props=props, name=f"Acc{IDS.index(dev_id)}", **({"addresses": (address,)} if address else {}))
             if via in self.target_vias:
                 self.may_find.add(dev_id)  # from now on a waiter may legitimately complete (the record is in the cache)
+            if via in self.started:
+                self.last_adv.pop((dev_id, via), None)  # (from now until the end of the resolution window the description may show either)
             if name not in self.model_resolve and via in self.started:
                 # the browser path may debounce: the record MUST have been processed DEBOUNCE_MAX after the state change (the code uses 0.5 s;
                 # the property does not fix the delay, so only an upper bound is demanded and earlier completion is fine).  Only once the
@@ -308,7 +318,10 @@ class H(explore.Harness):
                 del self.model_resolve[name]
                 if name in self.zc_cache and via in self.target_vias:
                     self.discovered.setdefault(dev_id, now)
-                    self.last_adv[(dev_id, via)] = v
+                    if (dev_id, via) in self.ambig:
+                        self.ambig.discard((dev_id, via))
+                    else:
+                        self.last_adv[(dev_id, via)] = v
                     for w in self.waiters:
                         if w["id"] == dev_id and not w["task"].done() and not w.get("cancel_requested") and "adv_at" not in w:
                             if now >= w["t0"] + w["timeout"] - 1e-9:
@@ -507,7 +520,7 @@ class H(explore.Harness):
         from vt import canon as _c
 
         generic = tuple(_c.canon(c, depth=2, skip=("_char_cache", "_loop", "_async_zeroconf_instance", "pairings", "aliases", "discoveries", "transports", "_tasks")) for c in self.ctrls.values())
-        model = (tuple(sorted(getattr(self, "started", {}).items())), tuple(t.done() for t in getattr(self, "start_tasks", [])), getattr(self, "pairing_shut", False), getattr(self, "disc_connected", False), tuple(sorted(self.may_find)), tuple(sorted((k, v % 3) for k, v in self.nadv.items())), tuple(sorted((k, tuple(sorted(v.items()))) for k, v in self.last_adv.items())), tuple(sorted(self.zc_cache)),
+        model = (tuple(sorted(getattr(self, "started", {}).items())), tuple(t.done() for t in getattr(self, "start_tasks", [])), getattr(self, "pairing_shut", False), getattr(self, "disc_connected", False), tuple(sorted(self.may_find)), tuple(sorted((k, v % 3) for k, v in self.nadv.items())), tuple(sorted((k, tuple(sorted(v.items()))) for k, v in self.last_adv.items())), tuple(sorted(self.zc_cache)), tuple(sorted(self.ambig)),
                  tuple(sorted((n, round(d[0] - self.loop.time(), 6)) for n, d in self.model_resolve.items())))
         conns = tuple((pid, getattr(getattr(pr, "connection", None), "_reconnect_future", None) is not None and pr.connection._reconnect_future.done(), getattr(getattr(pr, "connection", None), "closing", None))
                       for c in self.ctrls.values() for pid, pr in sorted(c.pairings.items()))
